@@ -52,9 +52,19 @@ def parse_concat_json(txt):
 
 
 _AST_CACHE = {}
+import threading
+_AST_LOCKS = {}
+_AST_GUARD = threading.Lock()
 
 
 def load_ast(cpp):
+    with _AST_GUARD:
+        lock = _AST_LOCKS.setdefault(cpp, threading.Lock())
+    with lock:
+        return _load_ast(cpp)
+
+
+def _load_ast(cpp):
     if cpp in _AST_CACHE:
         return _AST_CACHE[cpp]
     p = subprocess.run(clang_cmd(cpp), capture_output=True, text=True)
@@ -121,8 +131,12 @@ class Program:
         self.global_by_id = {}
         self.enum_const = {}             # constant name -> (enum name, value)
         self.field_owner = {}
-        for objs in asts:
+        for cpp, objs in zip(self.cpps, asts):
             for o in objs:
+                if o.get('kind') == 'VarDecl' and 'includedFrom' not in o.get('loc', {}) and \
+                        'includedFrom' not in o.get('range', {}).get('begin', {}) and \
+                        (o.get('loc', {}).get('file', cpp) == cpp):
+                    o['_main_file_of'] = cpp
                 self._index(o, None, [])
         self._name_functions()
 
@@ -197,6 +211,8 @@ class Program:
             info['rec'] = rec
         if func_body(o) is not None and info['def'] is None:
             info['def'] = o
+        if o.get('storageClass') == 'static' and o['kind'] == 'CXXMethodDecl':
+            info['static_method'] = True
         self.func_by_id[o['id']] = key
 
     def _base_name(self, info):
@@ -287,7 +303,10 @@ class Emitter:
         if q.endswith('&&'):
             raise Unsupported('rvalue reference type ' + q)
         if q.endswith('&'):
-            return self.ctype_s(const + q[:-1].strip()) + ' *'
+            inner = self.ctype_s(const + q[:-1].strip())
+            if inner.startswith('VECVIEW:'):
+                return inner[8:] + ' *'
+            return inner + ' *'
         if q.endswith('*const'):
             q = q[:-5].strip()
         if q.endswith('*'):
@@ -302,6 +321,10 @@ class Emitter:
         m = re.fullmatch(r'std::array<(.*), (\d+)>', q)
         if m:
             raise Unsupported('std::array outside a declarator: ' + q)
+        m = re.fullmatch(r'std::vector<(.*?)(, std::allocator<.*>)?>', q)
+        if m:
+            self.hit('std::vector<T> (reference parameter) -> array view T*')
+            return 'VECVIEW:' + const + self.ctype_s(m.group(1))
         q2 = q.split('::')[-1] if '<' not in q else q
         if q2 in self.p.enums:
             return const + q2
@@ -467,7 +490,18 @@ class Emitter:
 
     def e_BinaryOperator(self, n):
         a, b = n['inner']
-        return '(%s %s %s)' % (self.e(a), n['opcode'], self.e(b))
+        op = n['opcode']
+        if op in ('<<', '<<='):
+            t = self.ctype(n['type'])
+            ut = {'int': 'unsigned int', 'int64_t': 'uint64_t', 'long long': 'unsigned long long', 'int32_t': 'uint32_t',
+                  'int16_t': 'unsigned int', 'int8_t': 'unsigned int'}.get(t)
+            if ut and op == '<<':
+                # C++20 [expr.shift]: E1 << E2 on a signed type is the value congruent modulo 2^N (no overflow UB as in C)
+                self.hit('signed << -> computed in the unsigned type (C++20 modular semantics)')
+                return '((%s)((%s)%s << %s))' % (t, ut, self.e(a), self.e(b))
+            if ut:
+                raise Unsupported('signed <<= in ' + str(self.cur_fn))
+        return '(%s %s %s)' % (self.e(a), op, self.e(b))
     e_CompoundAssignOperator = e_BinaryOperator
 
     def e_UnaryOperator(self, n):
@@ -563,7 +597,7 @@ class Emitter:
 
     def library_call(self, nm, n, argn):
         """The binding table: library entities with an assumed contract (listed in the evidence)."""
-        t = self.ctype(n['type']) if qt(n['type']) != 'void' else 'void'
+        t = self.ctype(n['type']).replace('const ', '') if qt(n['type']) != 'void' else 'void'
         if nm in ('max', 'min') and len(argn) == 2:
             self.hit('std::%s -> verif_%s_<type>' % (nm, nm))
             self.bindings_used['%s_%s' % (nm, sanitize(t))] = (nm, t)
@@ -589,6 +623,12 @@ class Emitter:
                 if r['name'] == 'operator[]' and re.match(r'(const )?std::array<', a0t):
                     self.hit('std::array::operator[] -> array subscript')
                     return '%s[%s]' % (self.e(n['inner'][1]), self.e(n['inner'][2]))
+                if r['name'] == 'operator[]' and re.match(r'(const )?std::vector<', a0t):
+                    self.hit('std::vector::operator[] -> array subscript on the view')
+                    base = self.e(n['inner'][1])
+                    if base.startswith('(*') and base.endswith(')') and self._balanced(base[2:-1]):
+                        base = base[2:-1]
+                    return '%s[%s]' % (base, self.e(n['inner'][2]))
                 if 'basic_string<char>' in a0t or a0t.endswith('std::string'):
                     if r['name'] == 'operator[]':
                         self.hit('std::string::operator[] -> verif_str_at (asserts index <= size)')
@@ -627,7 +667,7 @@ class Emitter:
         obj = bs if me.get('isArrow') else self.addr_of(bs)
         if self.returns_ref(info['node']) and ctx not in ('rvalue', 'discard'):
             raise Unsupported('reference-returning method used as lvalue in %s' % self.cur_fn)
-        if info['node'].get('storageClass') == 'static':
+        if info.get('static_method'):
             return '%s(%s)' % (self.fname(key), ', '.join(self.args(info['node'], n['inner'][1:])))
         return '%s(%s)' % (self.fname(key), ', '.join([obj] + self.args(info['node'], n['inner'][1:])))
 
@@ -872,7 +912,7 @@ class Emitter:
     def proto(self, info):
         o = info['def'] or info['node']
         ps = []
-        is_method = info['rec'] is not None and o['kind'] != 'FunctionDecl' and o.get('storageClass') != 'static'
+        is_method = info['rec'] is not None and o['kind'] != 'FunctionDecl' and not info.get('static_method')
         if is_method:
             const = 'const ' if re.search(r'\)\s*const\s*(noexcept)?\s*$', o['type']['qualType']) else ''
             self.needed_records[info['rec']['name']] = True
@@ -965,7 +1005,8 @@ class Emitter:
         self.loopc_used = set()
         todo = [self.p.lookup(r) for r in roots]
         for cn in self.contracts:
-            self.p.lookup(cn)
+            if not cn.startswith('verif_'):
+                self.p.lookup(cn)
         done = OrderedDict()
         bodies = OrderedDict()
         while todo:
@@ -1075,7 +1116,8 @@ class Emitter:
             elif nm == 'abs':
                 out.append('static inline %s verif_abs_%s(%s a) { return a < 0 ? -a : a; }\n' % (t, st, t))
             else:
-                out.append('/* assumed library contract */ double verif_%s(%s);\n' % (nm, 'double, double' if nm == 'pow' else 'double'))
+                out.append('/* library binding, assumed contract */ double verif_%s(%s)\n%s;\n' % (
+                    nm, 'double x, double y' if nm == 'pow' else 'double x', self.contracts.get('verif_' + nm, '')))
         return ''.join(out)
 
     def restore_text(self):
@@ -1164,19 +1206,7 @@ def const_values(prog, names):
 
 
 def _defined_in_cpp(prog, name):
-    o = prog.globals[name]
-    loc = o.get('loc', {})
-    f = loc.get('file') or ''
-    inc = loc.get('includedFrom')
-    rng = o.get('range', {}).get('begin', {})
-    # a declaration in the main file has no includedFrom
-    if inc is None and rng.get('includedFrom') is None:
-        # main file of one of the TUs: find which TU declares it
-        for cpp in prog.cpps:
-            for obj in _AST_CACHE.get(cpp, []):
-                if obj.get('id') == o['id']:
-                    return cpp
-    return None
+    return prog.globals[name].get('_main_file_of')
 
 
 def _engine_objs_for_consts(td, inc):
@@ -1202,6 +1232,13 @@ def translate(cpps, roots, contracts=None, loopc=None, nobody=(), hooks=None):
 
 
 if __name__ == '__main__':
+    if sys.argv[1] == '--names':
+        CFG_DIR = os.path.join(REPO, '_build')
+        pr = Program(sys.argv[3:])
+        for cn in sorted(pr.by_cname):
+            if re.search(sys.argv[2], cn):
+                print(cn, '  def' if pr.by_cname[cn]['def'] else '')
+        sys.exit(0)
     i = sys.argv.index('--')
     cpps = sys.argv[1:i]
     roots = sys.argv[i + 1:]
